@@ -19,7 +19,7 @@ from harness.core import q, z, coq_list, coq_opt, coq_str
 PID = "C17"
 GEN_GROUPS = ["Tariffs", "TariffK"]
 TARGETS = ["coq/Props/C17.vo", "coq/Model/Tariff.vo"]
-CASES = {"quick": 1200, "thorough": 12000}
+CASES = {"quick": 1200, "thorough": 5000}
 CORR_HEADER = ("From Coq Require Import ZArith QArith List String.\n"
                "From ACN Require Import Base.Num Base.TariffRaw Gen.Tariffs Model.Tariff.\nImport ListNotations.\n"
                "Open Scope string_scope.\nOpen Scope Z_scope.\n")
@@ -122,7 +122,10 @@ def load_impl(src):
             else:
                 name = "inline_%d" % src[1]
                 with open(os.path.join(tmpdir(), name + ".json"), "w") as f:
-                    json.dump(dict(name=name, effective="2020-01-01", schedule=_inline[src[1]]), f)
+                    # half of the generated files share their "name" with two bundled files (a cache keyed by the
+                    # tariff's name instead of the object would mix them up)
+                    json.dump(dict(name=name if src[1] % 2 else "SCE TOU-EV-8", effective="2020-01-01",
+                                   schedule=_inline[src[1]]), f)
                 t = TimeOfUseTariff(name, tariff_dir=tmpdir())
             _impl_cache[key] = (t, None)
         except Exception as e:  # noqa
@@ -296,9 +299,32 @@ def case_demand(src, t, aware=None):
                 nontrivial=True, raw=r)
 
 
+def whole(period):
+    """is the period an integer object (int / numpy integer)?  Floats — even integral ones — go through the
+    rational model"""
+    return isinstance(period, int) or type(period).__name__.startswith(("int", "uint"))
+
+
+def us_step(period):
+    """microseconds of timedelta(minutes=period) (exact for the periods the generators use)"""
+    return int(F(period) * 60 * US)
+
+
+def jnum(x):
+    return x.item() if hasattr(x, "item") else x
+
+
+FRAC_PERIODS = [2.5, 0.5, 7.5, 12.25, 0.25, 1.5, 22.5, 5.0, 60.0, 37.5, 0.125]
+
+
 def case_tariffs(src, start, n, period, aware=None):
     dt = mkdt(start, aware)
     r = run(src, lambda T: T.get_tariffs(dt, n, period))
+    if not whole(period):
+        return dict(input=dict(op="get_tariffs", src=list(src), start=start, dt=str(dt), length=jnum(n), period=jnum(period)),
+                    impl=jres(r), coq="(CTariffsQ %s %s %s %s %s)" % (src_coq(src), z(start), z(n), q(period), res_coq(r, qlist)),
+                    kind="get_tariffs/frac" + ("/err" if r[0] == "err" else ""), sig=["tsq", list(src), start, jnum(n), jnum(period)],
+                    nontrivial=n > 0, raw=r)
     if r[0] == "ok" and len(r[1]) > 40:
         table = sorted(set(r[1]))
         pos = {v: i for i, v in enumerate(table)}
@@ -312,23 +338,27 @@ def case_tariffs(src, start, n, period, aware=None):
                 nontrivial=n > 0, raw=r)
 
 
-def make_sim(src, start, period, iteration, voltages, aware=None, rates=None):
+ODD_IDS = [["S-9", "S-10", "S-11", "S-2"], ["b", "A", "a", "B"], ["10", "9", "100", "1"], ["0", "", "x", "-"],
+           ["S3", "S2", "S1", "S0"]]
+
+
+def make_sim(src, start, period, iteration, voltages, aware=None, rates=None, ids=None, scheduler=None, int_rates=False):
     import numpy as np
     from acnportal.acnsim import Simulator, ChargingNetwork, EventQueue
     from acnportal.acnsim.models import EVSE
     net = ChargingNetwork()
     for i, v in enumerate(voltages):
-        net.register_evse(EVSE("S%d" % i), v, 0)
+        net.register_evse(EVSE(ids[i] if ids else "S%d" % i), v, 0)
     signals = {}
     if src is not None:
         T, cerr = load_impl(src)
         if T is None:
             return None, "ctor:" + cerr
         signals = {"tariff": T}
-    sim = Simulator(net, None, EventQueue(), mkdt(start, aware), period=period, signals=signals, verbose=False)
+    sim = Simulator(net, scheduler, EventQueue(), mkdt(start, aware), period=period, signals=signals, verbose=False)
     sim._iteration = iteration
     if rates is not None:
-        sim.charging_rates = np.array(rates, dtype=float).reshape(len(voltages), -1)
+        sim.charging_rates = np.array(rates, dtype=int if int_rates else float).reshape(len(voltages), -1)
     return sim, None
 
 
@@ -339,56 +369,108 @@ def call(f):
         return ("err", err_label(e))
 
 
-def case_prices(src, start, period, iteration, n, st, aware=None):
+def case_prices(src, start, period, iteration, n, st, aware=None, iface=None, kind="iface.get_prices", result=None):
+    """Interface.get_prices on a fresh simulator, or on the given live interface (its simulator must have the stated
+    start / period / iteration); `result` = an already recorded outcome"""
     from acnportal.acnsim.interface import Interface
-    sim, cerr = make_sim(src, start, period, iteration, [208.0], aware)
-    r = ("err", cerr) if sim is None else call(lambda: Interface(sim).get_prices(n, st))
-    return dict(input=dict(op="Interface.get_prices", src=None if src is None else list(src), start=start, period=period,
-                           iteration=iteration, length=n, st=st, aware=aware), impl=jres(r),
-                coq="(CPrices %s %s %s %s %s %s %s)" % ("None" if src is None else "(Some %s)" % src_coq(src), z(start),
-                                                     z(period), z(iteration), z(n), coq_opt(st, z), res_coq(r, qlist)),
-                kind="iface.get_prices" + ("/err" if r[0] == "err" else ""),
-                sig=["p", None if src is None else list(src), start, period, iteration, n, st], nontrivial=True, raw=r)
+    if result is not None:
+        r = result
+    elif iface is not None:
+        r = call(lambda: iface.get_prices(n, st))
+    else:
+        sim, cerr = make_sim(src, start, period, iteration, [208.0], aware)
+        r = ("err", cerr) if sim is None else call(lambda: Interface(sim).get_prices(n, st))
+    srcc = "None" if src is None else "(Some %s)" % src_coq(src)
+    stv = None if st is None else int(st)
+    if whole(period):
+        coq = "(CPrices %s %s %s %s %s %s %s)" % (srcc, z(start), z(period), z(iteration), z(n), coq_opt(stv, z), res_coq(r, qlist))
+    else:
+        coq = "(CPricesQ %s %s %s %s %s %s %s)" % (srcc, z(start), q(period), z(iteration), z(n), coq_opt(stv, z), res_coq(r, qlist))
+    returned = r[1] if r[0] == "ok" else None
+    if r[0] == "ok":
+        r = ("ok", [float(v) for v in r[1]])        # a private copy: the caller may scribble over the returned array
+    return dict(input=dict(op="Interface.get_prices", src=None if src is None else list(src), start=start, period=jnum(period),
+                           iteration=iteration, length=int(n), st=stv, aware=aware), impl=jres(r), coq=coq,
+                kind=kind + ("" if whole(period) else "/frac") + ("/err" if r[0] == "err" else ""),
+                sig=["p", None if src is None else list(src), start, jnum(period), iteration, int(n), stv], nontrivial=True, raw=r,
+                returned=returned)
 
 
-def case_iface_demand(src, start, period, iteration, st, aware=None):
+def case_iface_demand(src, start, period, iteration, st, aware=None, iface=None, kind="iface.get_demand_charge", result=None):
     from acnportal.acnsim.interface import Interface
-    sim, cerr = make_sim(src, start, period, iteration, [208.0], aware)
-    r = ("err", cerr) if sim is None else call(lambda: Interface(sim).get_demand_charge(st))
+    if result is not None:
+        r = result
+    elif iface is not None:
+        r = call(lambda: iface.get_demand_charge(st))
+    else:
+        sim, cerr = make_sim(src, start, period, iteration, [208.0], aware)
+        r = ("err", cerr) if sim is None else call(lambda: Interface(sim).get_demand_charge(st))
+    srcc = "None" if src is None else "(Some %s)" % src_coq(src)
+    stv = None if st is None else int(st)
+    if whole(period):
+        coq = "(CIfaceDemand %s %s %s %s %s %s)" % (srcc, z(start), z(period), z(iteration), coq_opt(stv, z), res_coq(r, q))
+    else:
+        coq = "(CIfaceDemandQ %s %s %s %s %s %s)" % (srcc, z(start), q(period), z(iteration), coq_opt(stv, z), res_coq(r, q))
     return dict(input=dict(op="Interface.get_demand_charge", src=None if src is None else list(src), start=start,
-                           period=period, iteration=iteration, st=st, aware=aware), impl=jres(r),
-                coq="(CIfaceDemand %s %s %s %s %s %s)" % ("None" if src is None else "(Some %s)" % src_coq(src), z(start),
-                                                       z(period), z(iteration), coq_opt(st, z), res_coq(r, q)),
-                kind="iface.get_demand_charge" + ("/err" if r[0] == "err" else ""),
-                sig=["pd", None if src is None else list(src), start, period, iteration, st], nontrivial=True, raw=r)
+                           period=jnum(period), iteration=iteration, st=stv, aware=aware), impl=jres(r), coq=coq,
+                kind=kind + ("" if whole(period) else "/frac") + ("/err" if r[0] == "err" else ""),
+                sig=["pd", None if src is None else list(src), start, jnum(period), iteration, stv], nontrivial=True, raw=r)
 
 
-def case_cost(which, src, start, period, voltages, rates, aware=None, explicit=False):
-    """rates: station-major matrix (list of rows).  which = 'energy' | 'demand'."""
+def cost_coq(which, src, start, period, voltages, rates, r):
+    ncol = len(rates[0]) if rates else 0
+    cols = [[rates[s_][k] for s_ in range(len(voltages))] for k in range(ncol)]
+    colq = coq_list([qlist(c) for c in cols])
+    if which == "demand":
+        return "(CDemandCharge %s %s %s %s %s)" % (src_coq(src), z(start), qlist(voltages), colq, res_coq(r, q))
+    if whole(period):
+        return "(CEnergy %s %s %s %s %s %s)" % (src_coq(src), z(start), z(period), qlist(voltages), colq, res_coq(r, q))
+    return "(CEnergyQ %s %s %s %s %s %s)" % (src_coq(src), z(start), q(period), qlist(voltages), colq, res_coq(r, q))
+
+
+def cost_on(sim, which, T=None):
+    """call the analysis function; the simulator's rate matrix is caller-owned and must come back untouched"""
+    import numpy as np
     from acnportal.acnsim import analysis
-    sim, cerr = make_sim(None if explicit else src, start, period, len(rates[0]) if rates else 0, voltages, aware, rates)
+    fn = analysis.energy_cost if which == "energy" else analysis.demand_charge
+    before = np.array(sim.charging_rates, copy=True)
+    r = call((lambda: fn(sim, T)) if T is not None else (lambda: fn(sim)))
+    after = sim.charging_rates
+    if after.shape != before.shape or after.dtype != before.dtype or not np.array_equal(after, before):
+        r = ("err", "caller-owned charging_rates changed by analysis." + which)
+    return r
+
+
+def case_cost(which, src, start, period, voltages, rates, aware=None, explicit=False, ids=None, int_rates=False,
+              reload=False, sim=None, kind=None):
+    """rates: station-major matrix (list of rows).  which = 'energy' | 'demand'.
+    reload: the simulator goes through to_json / from_json first (signals are not serialised: tariff given explicitly)."""
+    cerr, T = None, None
+    if sim is None:
+        sched = None
+        if reload:
+            from acnportal.algorithms import UncontrolledCharging
+            sched, explicit = UncontrolledCharging(), True
+        sim, cerr = make_sim(None if explicit else src, start, period, len(rates[0]) if rates else 0, voltages, aware, rates,
+                             ids=ids, scheduler=sched, int_rates=int_rates)
+        if sim is not None and reload:
+            # (Simulator.to_json writes the start with strftime("%d%m%Y"): years below 1000 are not zero-padded by glibc
+            #  and from_json then fails — serialisation is C09's subject; reload cases use years >= 1000)
+            from acnportal.acnsim import Simulator
+            sim = Simulator.from_json(sim.to_json())
     if explicit:
         T, cerr2 = load_impl(src)
         if T is None:
             sim, cerr = None, "ctor:" + cerr2
-    fn = analysis.energy_cost if which == "energy" else analysis.demand_charge
-    if sim is None:
-        r = ("err", cerr)
-    elif explicit:
-        r = call(lambda: fn(sim, T))
-    else:
-        r = call(lambda: fn(sim))
+    r = ("err", cerr) if sim is None else cost_on(sim, which, T if explicit else None)
     ncol = len(rates[0]) if rates else 0
-    cols = [[rates[s][k] for s in range(len(voltages))] for k in range(ncol)]
-    colq = coq_list([qlist(c) for c in cols])
-    if which == "energy":
-        coq = "(CEnergy %s %s %s %s %s %s)" % (src_coq(src), z(start), z(period), qlist(voltages), colq, res_coq(r, q))
-    else:
-        coq = "(CDemandCharge %s %s %s %s %s)" % (src_coq(src), z(start), qlist(voltages), colq, res_coq(r, q))
     return dict(input=dict(op="analysis." + ("energy_cost" if which == "energy" else "demand_charge"), src=list(src),
-                           start=start, period=period, voltages=voltages, rates=rates, aware=aware, explicit=explicit),
-                impl=jres(r), coq=coq, kind="analysis." + which + ("/err" if r[0] == "err" else ""),
-                sig=[which, list(src), start, period, voltages, rates], nontrivial=ncol > 0, raw=r)
+                           start=start, period=jnum(period), voltages=voltages, rates=rates, aware=aware, explicit=explicit,
+                           ids=ids, int_rates=int_rates, reload=reload),
+                impl=jres(r), coq=cost_coq(which, src, start, period, voltages, rates, r),
+                kind=(kind or "analysis." + which) + ("" if whole(period) else "/frac") + ("/reload" if reload else "")
+                + ("/err" if r[0] == "err" else ""),
+                sig=[which, list(src), start, jnum(period), voltages, rates, reload], nontrivial=ncol > 0, raw=r)
 
 
 # ------------------------------------------------------------------------------------------------
@@ -570,24 +652,31 @@ def live_cases(rng, names):
     from acnportal.acnsim.models import EVSE, EV, Battery
     from acnportal.algorithms import BaseAlgorithm
 
+    class Stop(BaseException):
+        pass
+
     class Recorder(BaseAlgorithm):
-        def __init__(self, n, every):
+        def __init__(self, n, every, fail_at, exc):
             super().__init__()
             self.max_recompute = every
             self.n = n
             self.log = []
+            self.fail_at, self.exc = fail_at, exc
 
         def schedule(self, active_sessions):
             it = self.interface.current_time
             self.log.append((it, call(lambda: self.interface.get_prices(self.n)),
                              call(lambda: self.interface.get_demand_charge())))
+            if self.fail_at is not None and len(self.log) == self.fail_at:
+                self.fail_at = None
+                raise self.exc("scheduler interrupted")
             return {s.station_id: [rate] for s, rate in zip(active_sessions, [16, 8, 24, 32])}
 
     src = ("b", rng.choice(names))
     T, _ = load_impl(src)
     docs = bundled_docs(src[1])
-    period = rng.choice(SIM_PERIODS)
-    start = boundary_instant(rng, docs) // US * US - rng.choice([0, 1, 2, 3]) * period * 60 * US
+    period = rng.choice(SIM_PERIODS) if rng.random() < 0.75 else rng.choice(FRAC_PERIODS)
+    start = boundary_instant(rng, docs) // US * US - rng.choice([0, 1, 2, 3]) * us_step(period)
     aware = rng.choice(AWARE)
     voltages = [rng.choice([208.0, 240.0, 277.0]) for _ in range(rng.randint(1, 3))]
     net = ChargingNetwork()
@@ -597,37 +686,155 @@ def live_cases(rng, names):
         a = rng.randint(0, 4)
         ev = EV(a, a + rng.randint(2, 10), rng.choice([2.0, 10.0]), "S%d" % i, "sess%d" % i, Battery(60, 0, 7))
         events.append(PluginEvent(a, ev))
-    alg = Recorder(rng.choice([1, 3, 12]), rng.choice([1, 1, 2]))
+    interrupted = rng.random() < 0.4
+    alg = Recorder(rng.choice([1, 3, 12]), rng.choice([1, 1, 2]), rng.choice([1, 2, 3, 5]) if interrupted else None,
+                   rng.choice([RuntimeError, Stop]))
     sim = Simulator(net, alg, EventQueue(events), mkdt(start, aware), period=period, signals={"tariff": T}, verbose=False)
-    sim.run()
+    for _ in range(3):          # a scheduler that raises (Exception or BaseException) interrupts run(); run() again resumes
+        try:
+            sim.run()
+            break
+        except (RuntimeError, Stop):
+            continue
     out = []
+    tag = "live/interrupted" if interrupted else "live"
     for it, pr, dc in alg.log:
-        out.append(dict(input=dict(op="Interface.get_prices", src=list(src), start=start, period=period, iteration=it,
-                                   length=alg.n, st=None, aware=aware, live=True), impl=jres(pr),
-                        coq="(CPrices (Some %s) %s %s %s %s None %s)" % (src_coq(src), z(start), z(period), z(it), z(alg.n),
-                                                                       res_coq(pr, qlist)),
-                        kind="live/get_prices", sig=["livep", list(src), start, period, it, alg.n], nontrivial=True, raw=pr))
-        out.append(dict(input=dict(op="Interface.get_demand_charge", src=list(src), start=start, period=period,
-                                   iteration=it, st=None, aware=aware, live=True), impl=jres(dc),
-                        coq="(CIfaceDemand (Some %s) %s %s %s None %s)" % (src_coq(src), z(start), z(period), z(it),
-                                                                         res_coq(dc, q)),
-                        kind="live/get_demand_charge", sig=["lived", list(src), start, period, it], nontrivial=True, raw=dc))
+        out.append(case_prices(src, start, period, it, alg.n, None, aware, kind=tag + "/get_prices", result=pr))
+        out.append(case_iface_demand(src, start, period, it, None, aware, kind=tag + "/get_demand_charge", result=dc))
     rates = [[float(x) for x in row] for row in sim.charging_rates]
-    ncol = len(rates[0]) if rates else 0
-    cols = [[rates[s_][k] for s_ in range(len(voltages))] for k in range(ncol)]
-    for which, fn in (("energy", analysis.energy_cost), ("demand", analysis.demand_charge)):
-        r = call(lambda: fn(sim))
-        if which == "energy":
-            coq = "(CEnergy %s %s %s %s %s %s)" % (src_coq(src), z(start), z(period), qlist(voltages),
-                                                coq_list([qlist(c) for c in cols]), res_coq(r, q))
-        else:
-            coq = "(CDemandCharge %s %s %s %s %s)" % (src_coq(src), z(start), qlist(voltages),
-                                                  coq_list([qlist(c) for c in cols]), res_coq(r, q))
-        out.append(dict(input=dict(op="analysis." + ("energy_cost" if which == "energy" else "demand_charge"),
-                                   src=list(src), start=start, period=period, voltages=voltages, rates=rates, aware=aware,
-                                   explicit=False, live=True), impl=jres(r), coq=coq, kind="live/analysis." + which,
-                        sig=["live" + which, list(src), start, period, rates], nontrivial=ncol > 0, raw=r))
+    for which in ("energy", "demand"):
+        out.append(case_cost(which, src, start, period, voltages, rates, aware, sim=sim, kind=tag + "/analysis." + which))
     return out
+
+
+def pick_src(rng, names):
+    """a bundled tariff; sometimes a SECOND live instance of the same file"""
+    n = rng.choice(names)
+    return ("b", n) if rng.random() < 0.7 else ("b", n, 2)
+
+
+def iface_sequence_cases(rng, names):
+    """Two live simulators (different tariffs, starts, periods), each with ONE Interface object that is queried
+    several times, alternately, with the simulator's iteration moved between queries; returned arrays are held,
+    half of them scribbled over by the caller, and the untouched ones re-read at the end."""
+    import numpy as np
+    from acnportal.acnsim.interface import Interface
+    sims = []
+    for _ in range(2):
+        src = pick_src(rng, names)
+        docs = bundled_docs(src[1])
+        period = rng.choice(SIM_PERIODS + FRAC_PERIODS[:6])
+        start = boundary_instant(rng, docs) if rng.random() < 0.6 else rand_instant(rng)
+        aware = rng.choice(AWARE)
+        sim, _ = make_sim(src, start, period, rng.randint(0, 400), [208.0, 240.0], aware)
+        sims.append(dict(src=src, period=period, start=start, aware=aware, sim=sim, iface=Interface(sim)))
+    out, held = [], []
+    for _ in range(rng.choice([4, 6, 8])):
+        x = rng.choice(sims)
+        if rng.random() < 0.5:
+            x["sim"]._iteration = rng.choice([0, x["sim"]._iteration + 1, rng.randint(0, 3000)])
+        it = x["sim"]._iteration
+        st = rng.choice([None, None, 0, it, rng.randint(0, 3000), -rng.randint(1, 50), np.int64(rng.randint(0, 99))])
+        if rng.random() < 0.7:
+            n = rng.choice([0, 1, 3, 12, -1, np.int64(4), np.int32(2)])
+            c = case_prices(x["src"], x["start"], x["period"], it, n, st, x["aware"], iface=x["iface"], kind="sequence/get_prices")
+            arr = c.pop("returned")
+            if arr is not None and hasattr(arr, "__setitem__") and len(arr):
+                if rng.random() < 0.5:
+                    arr[...] = -1.0                     # the caller owns the returned array
+                else:
+                    held.append((c, arr, [float(v) for v in arr]))
+            out.append(c)
+        else:
+            out.append(case_iface_demand(x["src"], x["start"], x["period"], it, st, x["aware"], iface=x["iface"],
+                                         kind="sequence/get_demand_charge"))
+    for c, arr, snapshot in held:
+        if [float(v) for v in arr] != snapshot:
+            c["raw"] = ("err", "a price vector returned earlier changed after later queries")
+            c["impl"] = jres(c["raw"])
+            c["coq"] = c["coq"][:c["coq"].rindex("(Ok ")] + '(Err "aliased-result"))'
+    return out
+
+
+def cost_sequence_cases(rng, names):
+    """one simulator whose rate matrix is changed between cost queries (more periods, other values, integer dtype),
+    stations registered with ids whose sorted order differs from registration order, per-station voltages"""
+    import numpy as np
+    src = pick_src(rng, names)
+    docs = bundled_docs(src[1])
+    period = rng.choice(SIM_PERIODS) if rng.random() < 0.7 else rng.choice(FRAC_PERIODS)
+    start = boundary_instant(rng, docs) if rng.random() < 0.6 else rand_instant(rng)
+    aware = rng.choice(AWARE)
+    ns = rng.randint(2, 4)
+    ids = rng.choice(ODD_IDS)[:ns]
+    voltages = [rng.choice([208.0, 240.0, 120.0, 277.0, 208.5, 480.0]) for _ in range(ns)]
+    ncol = rng.choice([1, 3, 8, 20])
+    rates = [[rng.choice([0.0, 6.0, 16.0, 32.0, round(rng.uniform(0, 32), 3)]) for _ in range(ncol)] for _ in range(ns)]
+    sim, _ = make_sim(src, start, period, ncol, voltages, aware, rates, ids=ids)
+    out = []
+    for step in range(rng.choice([2, 3, 4])):
+        which = rng.choice(["energy", "energy", "demand"])
+        out.append(case_cost(which, src, start, period, voltages, rates, aware, sim=sim, ids=ids, kind="sequence/analysis." + which))
+        how = rng.choice(["grow", "values", "int", "peak-elsewhere"])
+        if how == "grow":
+            more = rng.choice([1, 5])
+            rates = [row + [rng.choice([0.0, 8.0, 32.0]) for _ in range(more)] for row in rates]
+        elif how == "values":
+            rates = [[round(rng.uniform(0, 32), 2) for _ in row] for row in rates]
+        elif how == "int":
+            rates = [[float(rng.randint(0, 32)) for _ in row] for row in rates]
+        else:   # the period with the largest current is not the one with the largest power
+            rates = [[0.0 for _ in row] for row in rates]
+            lo, hi = voltages.index(min(voltages)), voltages.index(max(voltages))
+            if len(rates[0]) >= 2 and lo != hi:
+                rates[lo][0], rates[hi][-1] = 30.0, 29.0
+        sim.charging_rates = np.array(rates, dtype=int if how == "int" else float).reshape(ns, -1)
+        sim._iteration = len(rates[0])
+    return out
+
+
+def second_interpreter_cases(rng, names, k=10):
+    """the same lookups done by a second interpreter started with another PYTHONHASHSEED"""
+    import os, subprocess, sys
+    specs = []
+    for _ in range(k):
+        n = rng.choice(names)
+        docs = bundled_docs(n)
+        t = boundary_instant(rng, docs) if rng.random() < 0.6 else rand_instant(rng)
+        specs.append(dict(name=n, t=t, n=rng.choice([1, 4, 24]), period=rng.choice([5, 60, 45, 360])))
+    env = dict(os.environ, PYTHONHASHSEED=str(rng.randint(1, 4000000000)))
+    p = subprocess.run([sys.executable, "-W", "ignore", "-c",
+                        "import sys, json; from harness import c17; print(json.dumps(c17.lookups(json.loads(sys.stdin.read()))))"],
+                       input=json.dumps(specs), env=env, cwd=core.ROOT, stdout=subprocess.PIPE, stderr=subprocess.PIPE, text=True,
+                       timeout=120)
+    try:
+        results = json.loads(p.stdout.strip().split("\n")[-1])
+    except Exception:  # noqa
+        results = [dict(tariffs=["err", "second interpreter failed"], demand=["err", "second interpreter failed"])] * k
+    out = []
+    for sp, r in zip(specs, results):
+        src = ("b", sp["name"])
+        rt, rd = tuple(r["tariffs"]), tuple(r["demand"])
+        out.append(dict(input=dict(op="get_tariffs", src=list(src), start=sp["t"], length=sp["n"], period=sp["period"],
+                                   pythonhashseed=env["PYTHONHASHSEED"]), impl=jres(rt),
+                        coq="(CTariffs %s %s %s %s %s)" % (src_coq(src), z(sp["t"]), z(sp["n"]), z(sp["period"]), res_coq(rt, qlist)),
+                        kind="hashseed/get_tariffs", sig=["hs", sp["name"], sp["t"], sp["n"], sp["period"]], nontrivial=True, raw=rt))
+        out.append(dict(input=dict(op="get_demand_charge", src=list(src), t=sp["t"], pythonhashseed=env["PYTHONHASHSEED"]),
+                        impl=jres(rd), coq="(CDemand %s %s %s)" % (src_coq(src), z(sp["t"]), res_coq(rd, q)),
+                        kind="hashseed/get_demand_charge", sig=["hsd", sp["name"], sp["t"]], nontrivial=True, raw=rd))
+    return out
+
+
+def lookups(specs):
+    """(runs in the second interpreter)"""
+    res = []
+    for sp in specs:
+        src = ("b", sp["name"])
+        dt = dt_of(sp["t"])
+        rt = run(src, lambda T: [float(x) for x in T.get_tariffs(dt, sp["n"], sp["period"])])
+        rd = run(src, lambda T: T.get_demand_charge(dt))
+        res.append(dict(tariffs=list(rt), demand=list(rd)))
+    return res
 
 
 def fixed_cases(names):
@@ -643,7 +850,7 @@ def fixed_cases(names):
 
 
 def bundled_random_case(rng, names):
-    src = ("b", rng.choice(names))
+    src = pick_src(rng, names)
     docs = bundled_docs(src[1])
     aware = rng.choice(AWARE)
     r = rng.random()
@@ -653,25 +860,29 @@ def bundled_random_case(rng, names):
     if r < 0.50:
         return case_demand(src, t, aware)
     if r < 0.64:
-        period = rng.choice([1, 5, 5, 15, 30, 60, 60, 360, 1440, 7, 10080, 9, 25, 45, 90, 11])
-        n = rng.choice([0, 1, 2, 5, 12, 24, 48, 100])
+        period = rng.choice([1, 5, 5, 15, 30, 60, 60, 360, 1440, 7, 10080, 9, 25, 45, 90, 11] + FRAC_PERIODS[:7])
+        n = rng.choice([0, 1, 2, 5, 12, 24, 48, 100, -1])
         return case_tariffs(src, t, n, period, aware)
     if r < 0.80:
-        period = rng.choice(SIM_PERIODS)
+        period = rng.choice(SIM_PERIODS) if rng.random() < 0.8 else rng.choice(FRAC_PERIODS)
         it = rng.randint(0, 3000)
         n = rng.choice([0, 1, 3, 12, 36])
-        st = rng.choice([None, None, 0, it, rng.randint(0, 5000), it + rng.randint(1, 50)])
+        st = rng.choice([None, None, 0, it, rng.randint(0, 5000), it + rng.randint(1, 50), -rng.randint(1, 100)])
         s = src if rng.random() < 0.95 else None
         if rng.random() < 0.75:
             return case_prices(s, t, period, it, n, st, aware)
         return case_iface_demand(s, t, period, it, st, aware)
-    period = rng.choice(SIM_PERIODS)
+    period = rng.choice(SIM_PERIODS) if rng.random() < 0.8 else rng.choice(FRAC_PERIODS)
     ns = rng.randint(1, 4)
     ncol = rng.choice([0, 1, 2, 6, 24, 60]) if rng.random() < 0.9 else 0
     voltages = [rng.choice([208.0, 240.0, 120.0, 277.0, 208.5]) for _ in range(ns)]
+    int_rates = rng.random() < 0.2
     rates = [[rng.choice([0.0, 0.0, 6.0, 16.0, 32.0, round(rng.uniform(0, 32), 3)]) for _ in range(ncol)] for _ in range(ns)]
+    if int_rates:
+        rates = [[float(int(v)) for v in row] for row in rates]
     return case_cost(rng.choice(["energy", "energy", "demand"]), src, t, period, voltages, rates, aware,
-                     explicit=rng.random() < 0.3)
+                     explicit=rng.random() < 0.3, ids=rng.choice([None, rng.choice(ODD_IDS)[:ns]]), int_rates=int_rates,
+                     reload=ncol > 0 and dt_of(t).year >= 1000 and rng.random() < 0.12)
 
 
 def finite_check_cases():
@@ -719,6 +930,11 @@ def gen_cases_main(rng, n, tier, names):
     fixed, cases = cases[:len(names) * 3], cases[len(names) * 3:]
     for _ in range(5 if tier == "quick" else 40):
         cases.extend(live_cases(rng, names))
+    for _ in range(10 if tier == "quick" else 80):
+        cases.extend(iface_sequence_cases(rng, names))
+    for _ in range(10 if tier == "quick" else 80):
+        cases.extend(cost_sequence_cases(rng, names))
+    cases.extend(second_interpreter_cases(rng, names))
     while len(cases) + len(fixed) < n:
         cases.append(bundled_random_case(rng, names))
     # spread the long sweeps over the shards (they dominate the evaluation time)
@@ -727,7 +943,7 @@ def gen_cases_main(rng, n, tier, names):
     return cases
 
 
-INLINE_HEADER_FILES = {"quick": 40, "thorough": 200}
+INLINE_HEADER_FILES = {"quick": 40, "thorough": 100}
 
 
 def extra_streams(rng, tier):
@@ -754,7 +970,7 @@ def extra_streams(rng, tier):
             elif r < 0.9:
                 cases.append(case_tariffs(src, t, rng.choice([1, 3, 8, 30]), rng.choice([60, 360, 1440, 5, 7, 45, 90])))
             else:
-                cases.append(case_prices(src, t, rng.choice([5, 60, 7, 25, 90]), rng.randint(0, 100), rng.choice([1, 4]), None))
+                cases.append(case_prices(src, t, rng.choice([5, 60, 7, 25, 90, 2.5, 7.5]), rng.randint(0, 100), rng.choice([1, 4]), None))
     for c in cases:
         if c["input"].get("src") and c["input"]["src"][0] == "i":
             c["input"]["docs"] = _inline[c["input"]["src"][1]]
@@ -809,7 +1025,7 @@ def monitor(case):
     if op == "get_tariff":
         return check_price_at(docs, inp["t"], raw, "get_tariff", bundled)
     if op == "get_demand_charge" or op == "Interface.get_demand_charge":
-        t = inp["t"] if op == "get_demand_charge" else inp["start"] + US * 60 * inp["period"] * (
+        t = inp["t"] if op == "get_demand_charge" else inp["start"] + us_step(inp["period"]) * (
             inp["iteration"] if inp["st"] is None else inp["st"])
         sp = spec_at(docs, dt_of(t))
         if sp is None:
@@ -826,12 +1042,12 @@ def monitor(case):
             t0, n, period = inp["start"], inp["length"], inp["period"]
         else:
             period, n = inp["period"], inp["length"]
-            t0 = inp["start"] + US * 60 * period * (inp["iteration"] if inp["st"] is None else inp["st"])
+            t0 = inp["start"] + us_step(period) * (inp["iteration"] if inp["st"] is None else inp["st"])
         n = max(n, 0)
         if raw[0] == "ok" and len(raw[1]) != n:
             return "%s: %d prices for %d periods" % (op, len(raw[1]), n)
         for k in range(n):
-            t = t0 + k * period * 60 * US
+            t = t0 + k * us_step(period)
             got = ("ok", raw[1][k]) if raw[0] == "ok" else raw
             r = check_price_at(docs, t, got, "%s[%d]" % (op, k), bundled)
             if raw[0] == "err":
@@ -852,12 +1068,12 @@ def monitor(case):
         if op == "analysis.energy_cost":
             tot = F(0)
             for k in range(ncol):
-                sp = spec_at(docs, dt_of(t0 + k * period * 60 * US))
+                sp = spec_at(docs, dt_of(t0 + k * us_step(period)))
                 if sp is None or sp[0] == "err":
                     return ("energy_cost: no unique schedule in period %d" % k) if bundled and sp is not None else None
                 if len(sp[1]) != 1:
                     return None
-                tot += F(sp[1][0]) * agg[k] * F(period, 60)
+                tot += F(sp[1][0]) * agg[k] * F(period) / 60
             if raw[0] == "err":
                 return "energy_cost: %s" % raw[1]
             if not close(float(tot), raw[1]):
